@@ -19,7 +19,7 @@ from lx.engine import HarnessError, SymStr, Unsupported, eng, sym_value
 from checks.c15 import fork_bool, fork_choice
 
 PID = "C17"
-BOUNDS = ("path = k segments (k<=3 quick, k<=4 thorough plus a seeded share of k=5), each 0..3 chars over {. q z _}; spelling in "
+BOUNDS = ("path = k segments (k<=4 quick; thorough adds k=5 for 10 seeded length vectors of the first three segments per route and spelling), each 0..3 chars over {. q z _}; spelling in "
           "{relative, absolute under the working directory, double-slash absolute}; root directory name 2 chars over {q z _} "
           "directly below the working directory (or one level deeper); routes POST /script, /lineage, /directory with f or d, "
           "GET /<path>; POSIX paths, no symlinks")
@@ -296,7 +296,7 @@ def obligations(tier, seed):
     import random
 
     obs = []
-    ks = [1, 2, 3] if tier == "quick" else [1, 2, 3, 4]
+    ks = [1, 2, 3, 4]
     for (m, r, p) in ROUTES:
         for form in FORMS:
             for k in ks:
@@ -306,8 +306,11 @@ def obligations(tier, seed):
                 # 64 vectors), the last two forked
                 rnd = random.Random("%s/%s/%s/%s" % (seed, m, r, form))
                 vecs = list(itertools.product(range(4), repeat=3))
-                for v in rnd.sample(vecs, 3):
+                for v in rnd.sample(vecs, 10):
                     obs.append(PathOb(m, r, p, form, 5, lens={0: v[0], 1: v[1], 2: v[2]}))
         obs.append(PathOb(m, r, p, "rel", 3, deep_root=True))
         obs.append(PathOb(m, r, p, "abs", 3, deep_root=True))
+        if tier == "thorough":
+            obs.append(PathOb(m, r, p, "rel", 4, deep_root=True))
+            obs.append(PathOb(m, r, p, "dslash", 4, deep_root=True))
     return obs
